@@ -32,9 +32,9 @@ MECHANISMS = [
 ]
 REQUIRED_MONITORS = ['structure', 'frame_values_exact', 'x_axis', 'header_range_exact', 'bytes_to_float_exact', 'isingl_exact',
                      'gen_floats_exact', 'example_file']
-FILES_PER_SHARD = {'quick': 60, 'thorough': 4000}
+FILES_PER_SHARD = {'quick': 180, 'thorough': 4000}
 RANDOM_FRACTIONS = {'quick': 40, 'thorough': 1500}
-MIN_NONTRIVIAL = {'quick': 400, 'thorough': 25000}
+MIN_NONTRIVIAL = {'quick': 1200, 'thorough': 25000}
 TIMEOUT_S = {'quick': 300, 'thorough': 3000}
 NSHARDS = 16
 CHUNK = 256
